@@ -228,28 +228,41 @@ def r_utils_argmax(m, rep, R):
     w = _w(fn.line, 'utils::argmax')
     body = cxx.body_of(fn)
     decl = {d.name: (term(env.init_of(d), env) if env.init_of(d) is not None else None) for d in body.find('VarDecl')}
-    whiles = body.find('WhileStmt')
+    loops = body.find('WhileStmt') + body.find('ForStmt')
     rets = [term(r.kids[0], env) for r in body.find('ReturnStmt') if r.kids]
-    ok = len(whiles) == 1 and len(rets) == 1 and rets[0][0] == 'var'
+    ok = len(loops) == 1 and len(rets) == 1 and rets[0][0] == 'var'
     detail = 'shape'
     if ok:
         idxv = rets[0][1]
-        wh = whiles[0]
-        okcond = canon(term(wh.kids[0], env)) in (canon(('bin', '!=', V(pr[0]), V(pr[1]))),)
-        ifs = wh.find('IfStmt')
-        incs = {strip(n.kids[0]).ref for n in wh.find('UnaryOperator') if n.op == '++' and not any(a.kind == 'IfStmt' for a in n.ancestors() if a is not wh and a in list(wh.walk()))}
+        lp = loops[0]
+        cursor = pr[0]                 # what walks over [from, to): the parameter itself, or a loop variable started at it
+        if lp.kind == 'WhileStmt':
+            cond_n, lbody, inc_nodes = lp.kids[0], lp.kids[1], []
+        else:
+            init, cond_n, inc, lbody = cxx.for_parts(lp)
+            inc_nodes = list(inc.walk()) if inc is not None else []
+            for d in (init.find('VarDecl') if init is not None else []):
+                i0 = env.init_of(d)
+                if i0 is not None and term(i0, env) == V(pr[0]):
+                    cursor = d.name
+                    decl.pop(d.name, None)
+        okcond = cond_n is not None and canon(term(cond_n, env)) in (canon(('bin', '!=', V(cursor), V(pr[1]))), canon(('bin', '<', V(cursor), V(pr[1]))))
+        ifs = lbody.find('IfStmt')
+        in_body = [n for n in lbody.find('UnaryOperator') if n.op == '++' and not any(a.kind == 'IfStmt' for a in n.ancestors() if a is not lp and a in list(lp.walk()))]
+        in_inc = [n for n in inc_nodes if n.kind == 'UnaryOperator' and n.op == '++']
+        incs = {strip(n.kids[0]).ref for n in in_body + in_inc}
         ok = okcond and len(ifs) == 1
         if ok:
             c = term(ifs[0].kids[0], env)
             maxv = None
-            cur = ('deref', V(pr[0]))
+            cur = ('deref', V(cursor))
             for cand in decl:
                 if canon(c) in (canon(('bin', '<=', V(cand), cur)), canon(('bin', '<', V(cand), cur))):
                     maxv = cand
             assigns = {canon(term(a.kids[0], env)): canon(term(a.kids[1], env)) for a in ifs[0].kids[1].find('BinaryOperator') if a.op == '='}
             counter = [v for v in decl if v not in (maxv, idxv)]
             ok = maxv is not None and len(counter) == 1 and assigns == {idxv: counter[0], maxv: canon(cur)} and \
-                {pr[0], counter[0]} <= incs and decl.get(counter[0]) == LIT(0) and \
+                {cursor, counter[0]} <= incs and decl.get(counter[0]) == LIT(0) and \
                 decl.get(maxv) is not None and decl[maxv][0] == 'call' and decl[maxv][1] == 'lowest'
             detail = 'test %s, updates %s, start %s' % (canon(c), assigns, show(decl.get(maxv)) if maxv else None)
     rep.check(ok, R, w, 'utils::argmax', 'argmax scans [from, to) from the lowest value and returns the position of a maximum (%s)' % detail,
@@ -376,8 +389,20 @@ def r_outside_fn(m, rep, R='R1.2c'):
               'prefix/suffix sums do not cover exactly the needed indices: %s' % detail)
     # zero bases
     z = {canon(t): v for t, v, n in assigns if n not in list(loops[0].walk()) and n not in list(loops[1].walk())}
-    okz = z.get(canon(IDX(left[0], LIT(0)))) in (LIT(0), LIT(0.0)) and \
-        z.get(canon(IDX(right[0], V(length)))) in (LIT(0), LIT(0.0))
+    def zero_filled(vec_t):
+        """std::vector<float> v(n) / v(n, 0): value-initialised, every element starts as 0"""
+        for d in vecs:
+            if V(d.name) == vec_t:
+                i = env.init_of(d)
+                t = term(i, env) if i is not None else None
+                if t is not None and t[0] == 'ctor' and 1 <= len(t[2]) <= 3 and all(a in (LIT(0), LIT(0.0), ('default',)) for a in t[2][1:]):
+                    return True
+        return False
+
+    def base_ok(vec_t, idx_t):
+        v_ = z.get(canon(IDX(vec_t, idx_t)))
+        return v_ in (LIT(0), LIT(0.0)) or (v_ is None and zero_filled(vec_t))
+    okz = base_ok(left[0], LIT(0)) and base_ok(right[0], V(length))
     rep.check(okz, R, w(body), 'outside:base', 'from_left[0] = 0 and from_right[length] = 0',
               'base cases of the prefix/suffix sums are not 0 at index 0 / length')
     # table fill
@@ -441,7 +466,9 @@ def r_estimates(m, rep, R, part):
             t = _leaf_token(m, s)
             sc = _leaf_candidate(m, s)
             if part == 'in':
-                spec = M(sc, 'first') if sc is not None else None
+                spec = M(sc.TOP, 'first') if sc is not None else None
+                if sc is not None:
+                    got = sc.resolve(got)
                 desc = 'TAG(t,c) (the popped candidate\'s score)'
             else:
                 spec = ADD(IDX(V(m.T_OUT or '?'), t, ADD(t, LIT(1))), V(m.DALL or '?'))
@@ -494,15 +521,52 @@ def _leaf_token(m, s):
     return V(v)
 
 
+class _Candidate(object):
+    """the candidate a leaf is built from: what `scored[t].top()` held when it was read in this iteration of the
+    candidate loop -- kept whole in a local (`c = q.top()`), field by field (`s = q.top().first; k = q.top().second`)
+    or unpacked (`std::tie(s, k) = q.top()`).  `resolve` rewrites the locals into TOP / TOP.first / TOP.second."""
+
+    def __init__(self, m, s):
+        t = _leaf_token(m, s)
+        self.q = IDX(V(m.scored), t)
+        self.TOP = ('mcall', self.q, 'top', ())
+        want = canon(self.TOP)
+        self.map = {}
+        self.nodes = []
+        for d in m.leaf_loop.find('VarDecl'):
+            init = m.env.init_of(d)
+            if init is None:
+                continue
+            ti = term(init, m.env)
+            c = canon(ti)
+            if c == want:
+                self.map[V(d.name)] = self.TOP
+                self.nodes.append(d)
+            elif ti[0] == 'mem' and canon(ti[1]) == want and ti[2] in ('first', 'second'):
+                self.map[V(d.name)] = M(self.TOP, ti[2])
+                self.nodes.append(d)
+        # std::tie(a, b) = q.top()
+        for n in m.leaf_loop.walk():
+            if n.kind in ('CXXOperatorCallExpr', 'BinaryOperator'):
+                try:
+                    tt = term(n, m.env)
+                except Exception:
+                    continue
+                if tt[0] in ('bin', 'opcall') and len(tt) >= 4 and tt[1] == '=' and canon(tt[3]) == want and tt[2][0] == 'call' \
+                        and str(tt[2][1]).endswith('tie') and len(tt[2][2]) == 2 and all(a[0] == 'var' for a in tt[2][2]):
+                    self.map[tt[2][2][0]] = M(self.TOP, 'first')
+                    self.map[tt[2][2][1]] = M(self.TOP, 'second')
+                    self.nodes.append(n)
+        self.found = bool(self.map)
+
+    def resolve(self, t):
+        out = cxx.subst(t, self.map) if self.map else t
+        return out
+
+
 def _leaf_candidate(m, s):
-    """the local holding scored[t].top() inside the candidate loop -> ('var', name) or None"""
-    t = _leaf_token(m, s)
-    want = canon(('mcall', IDX(V(m.scored), t), 'top', ()))
-    for d in m.leaf_loop.find('VarDecl'):
-        init = m.env.init_of(d)
-        if init is not None and canon(term(init, m.env)) == want:
-            return V(d.name)
-    return None
+    c = _Candidate(m, s)
+    return c if c.found else None
 
 
 def r_leaf_loop(m, rep, R):
@@ -521,11 +585,12 @@ def r_leaf_loop(m, rep, R):
             continue
         f = s.f
         t = V(v)
-        for fld, spec in (('cat', M(sc, 'second')), ('start_of_span', t), ('span_length', LIT(1)),
+        for fld, spec in (('cat', M(sc.TOP, 'second')), ('start_of_span', t), ('span_length', LIT(1)),
                           ('head_id', t), ('left', LIT(None)), ('right', LIT(None)), ('fin', LIT(False))):
-            rep.check(canon(f[fld]) == canon(spec), R, s.where(), 'leaf:' + fld,
+            got_ = sc.resolve(f[fld])
+            rep.check(canon(got_) == canon(spec), R, s.where(), 'leaf:' + fld,
                       'leaf push %s = %s' % (fld, canon(spec)),
-                      'leaf push %s is %s, expected %s' % (fld, canon(f[fld]), canon(spec)))
+                      'leaf push %s is %s, expected %s' % (fld, canon(got_), canon(spec)))
 
 
 def r_chart(m, rep, R):
@@ -1017,6 +1082,29 @@ def r_cache(m, rep, R):
                           '%s lambda forwards (%s callback, its own ids%s) to the shared lookup %s' % (kind, kind, '' if kind == 'binary' else ', UINT_MAX', core_name),
                           '%s lambda forwards %s to %s' % (kind, [show(a) for a in args], core_name))
                 bind = {'cb': cpr[0], 'x': cpr[1], 'y': cpr[2]}
+            elif r[0] == 'call' and isinstance(r[1], str) and r[1] in getattr(m.env, 'functions', {}):
+                # ... or around a helper function of the header that gets cache, scaffold, callback and ids as arguments
+                core_name = r[1]
+                core_fn = m.env.functions[core_name]
+                cpr = [p.name for p in cxx.params_of(core_fn)]
+                args = r[2]
+                pos = {}
+                for i_, a_ in enumerate(args):
+                    for role, want_ in (('cb', V(cbparam)), ('x', V(pr[0])), ('cache', V(m.p_cache)), ('scaffold', V(m.p_scaffold))):
+                        if a_ == want_ and role not in pos:
+                            pos[role] = i_
+                rest = [i_ for i_ in range(len(args)) if i_ not in pos.values()]
+                oky = len(rest) == 1 and (args[rest[0]] == V(pr[1]) if kind == 'binary' and len(pr) > 1
+                                          else not [x for x in subterms(args[rest[0]]) if x[0] in ('var', 'mem', 'call', 'mcall', 'idx')])
+                okw = len(args) == len(cpr) and {'cb', 'x', 'cache', 'scaffold'} <= set(pos) and oky
+                rep.check(okw, R, w, 'cache:%s:wrapper' % kind,
+                          '%s lambda forwards (cache, scaffold, %s callback, its own ids%s) to the shared lookup %s' % (kind, kind, '' if kind == 'binary' else ', UINT_MAX', core_name),
+                          '%s lambda forwards %s to %s' % (kind, [show(a) for a in args], core_name))
+                if okw:
+                    bind = {'cb': cpr[pos['cb']], 'x': cpr[pos['x']], 'y': cpr[rest[0]]}
+                    _r_cache_core(m, rep, R, kind, cbparam, core_fn, core_name, bind,
+                                  cache_term=V(cpr[pos['cache']]), scaffold=cpr[pos['scaffold']])
+                continue
         _r_cache_core(m, rep, R, kind, cbparam, core_fn, core_name, bind)
 
 
@@ -1279,6 +1367,21 @@ def r_beam(m, rep, R):
     q = IDX(V(m.scored), tv)
     cs = [canon(c) for c in conjuncts(cond)]
     bound = canon(('bin', '<', V(v), M(cfg, 'pruning_size')))
+    # `for (k = 0; k < W; k++)` with W = min(pruning_size, queue size) fixed before the loop: the same number of rounds,
+    # because every round pops exactly one entry (checked below)
+    fixed_width = False
+    cc = conjuncts(cond)
+    if len(cc) == 1 and cc[0][0] == 'bin' and cc[0][1] == '<' and cc[0][2] == V(v):
+        wt = cc[0][3]
+        if wt[0] == 'var':
+            for d in cxx.for_parts(m.leaf_loop)[3].find('VarDecl'):
+                if d.name == wt[1] and d not in list(cand_loop.walk()) and env.init_of(d) is not None and d.id not in env.mutated:
+                    wt = term(env.init_of(d), env)
+        if wt[0] == 'call' and str(wt[1]).split('::')[-1].split('<')[0] == 'min' and len(wt[2]) == 2:
+            args_ = {canon(a) for a in wt[2]}
+            if args_ == {canon(M(cfg, 'pruning_size')), canon(('mcall', q, 'size', ()))}:
+                fixed_width = True
+                cs = [bound, canon(('mcall', q, 'size', ()))]
     rep.check(lo == LIT(0) and step and bound in cs, R, _w(cand_loop.line), 'beam:pruning-size',
               'at most pruning_size candidates are taken per word (%s from 0, %s)' % (v, bound),
               'candidate loop header is (%s=%s; %s)' % (v, show(lo), cs))
@@ -1290,7 +1393,11 @@ def r_beam(m, rep, R):
     stmts = list(body.kids)
     tops = [n for n in body.find('CXXMemberCallExpr') if strip(n.kids[0]).name == 'top' and canon(term(strip(n.kids[0]).kids[0], env)) == canon(q)]
     pops = [n for n in body.find('CXXMemberCallExpr') if strip(n.kids[0]).name == 'pop' and canon(term(strip(n.kids[0]).kids[0], env)) == canon(q)]
-    ok = len(tops) == 1 and len(pops) == 1 and len(stmts) >= 2 and tops[0] in list(stmts[0].walk()) and stmts[1] is pops[0]
+    # every read of top() happens in the statements before the pop (one statement reading the pair, or one per field)
+    pop_i = [i for i, st in enumerate(stmts) if pops and (st is pops[0] or pops[0] in list(st.walk()))]
+    ok = len(pops) == 1 and 1 <= len(tops) <= 2 and bool(pop_i) and pop_i[0] >= 1 and stmts[pop_i[0]] is pops[0] and all(
+        any(t_ in list(st.walk()) for st in stmts[:pop_i[0]]) for t_ in tops) and all(
+        st.kind == 'DeclStmt' or any(t_ in list(st.walk()) for t_ in tops) for st in stmts[:pop_i[0]])
     rep.check(ok, R, _w(body.line), 'beam:one-pop', 'each iteration reads the best remaining candidate and removes it (top(); pop())',
               'candidate loop body does not start with top(); pop() on the word\'s queue')
     sc = _leaf_candidate(m, s)
@@ -1322,7 +1429,8 @@ def r_beam(m, rep, R):
     rep.check(stops, R, _w(ifnode.line), 'beam:early-stop', 'the first candidate failing the test ends the word\'s loop (break)',
               'a failing candidate does not end the loop')
     # resolve the threshold variable (kept as a variable by the inliner because it reads top())
-    score = M(sc, 'first')
+    score = M(sc.TOP, 'first')
+    keep = sc.resolve(keep)
     thr_defs = {}
     tok_body = cxx.for_parts(m.leaf_loop)[3]
     for d in tok_body.find('VarDecl'):
